@@ -11,7 +11,7 @@ use std::time::Duration;
 use vcore::{prop_search, Outcome, Run, Search};
 use wire::*;
 
-const RULE: &str = "end-to-end: histories of 1..5 connection-level events sent by the raw peer on either role — control stream opened with {valid SETTINGS, DATA first, HEADERS first, GREASE first, reserved setting id, duplicated setting id}; then {duplicate control stream, QPACK encoder/decoder stream (+ duplicate), unknown / GREASE uni stream, FIN or RESET of a critical stream, uni stream finished or reset inside its type varint, DATA / HEADERS / second SETTINGS / oversize / GREASE frame on the control stream, request whose first frame is DATA or SETTINGS, GET request, CONNECT without :protocol, WT streams with valid and invalid session ids, GREASE then WT signal on a bidi stream, SETTINGS / HEADERS / WT signal / GREASE on the established session stream}. Reference model (RFC 9114 §4.1, §6.2, §6.2.1, §7.2.x, RFC 9204 §4.2, WT draft): each event maps to continue / refuse that stream (code) / close the connection (admissible code set). Oracle: the first closing event decides the CONNECTION_CLOSE code seen by the raw peer and the local API error; histories without a closing event leave the session usable (fresh stream echo), and refused requests carry the prescribed STOP_SENDING code. Non-trivial: the history contains an event whose prescribed reaction is not 'continue'; distinct = distinct history";
+const RULE: &str = "end-to-end: histories of 1..5 connection-level events sent by the raw peer on either role — control stream opened with {valid SETTINGS, DATA first, HEADERS first, GREASE first, reserved setting id, duplicated setting id}; then {duplicate control stream, QPACK encoder/decoder stream (+ duplicate), unknown / GREASE uni stream, FIN or RESET of a critical stream, a frame of any type (DATA, HEADERS, SETTINGS, GREASE, unknown, WT signal) cut short by FIN inside its type, inside its length, right after its length or inside its payload on the control stream / as first frame of a new bidi stream / on the session stream, uni stream finished or reset inside its type varint, DATA / HEADERS / second SETTINGS / oversize / GREASE frame on the control stream, request whose first frame is DATA or SETTINGS, GET request, CONNECT without :protocol, WT streams with valid and invalid session ids, GREASE then WT signal on a bidi stream, SETTINGS / HEADERS / WT signal / GREASE on the established session stream}. Reference model (RFC 9114 §4.1, §6.2, §6.2.1, §7.2.x, RFC 9204 §4.2, WT draft): each event maps to continue / refuse that stream (code) / close the connection (admissible code set). Oracle: the first closing event decides the CONNECTION_CLOSE code seen by the raw peer and the local API error; histories without a closing event leave the session usable (fresh stream echo), and refused requests carry the prescribed STOP_SENDING code. Non-trivial: the history contains an event whose prescribed reaction is not 'continue'; distinct = distinct history";
 
 #[derive(Clone, Debug, Serialize, Deserialize, PartialEq)]
 pub enum Ev {
@@ -31,6 +31,12 @@ pub enum Ev {
     ControlOversize,
     ControlGrease,
     ControlTruncatedThenFin,
+    /// a frame (type selector, cut selector) cut short by FIN on the control stream
+    ControlTruncated(u8, u8),
+    /// ... as the first frame of a new peer-initiated bidirectional stream
+    RequestTruncated(u8, u8),
+    /// ... on the established session stream
+    SessionTruncated(u8, u8),
     RequestDataFirst,
     RequestSettingsFirst,
     RequestGet,
@@ -113,7 +119,10 @@ impl Model {
             Ev::ControlData | Ev::ControlHeaders | Ev::ControlSecondSettings => Close(vec![reg::H3_FRAME_UNEXPECTED]),
             Ev::ControlOversize => Close(vec![reg::H3_EXCESSIVE_LOAD]),
             Ev::ControlGrease => Continue,
-            Ev::ControlTruncatedThenFin => Close(vec![reg::H3_FRAME_ERROR, reg::H3_CLOSED_CRITICAL_STREAM]),
+            // RFC 9114 §7.1 (truncated frame: H3_FRAME_ERROR) and §6.2.1 (closed critical stream) both apply
+            Ev::ControlTruncatedThenFin | Ev::ControlTruncated(..) => Close(vec![reg::H3_FRAME_ERROR, reg::H3_CLOSED_CRITICAL_STREAM]),
+            // RFC 9114 §7.1: "A frame truncated by stream end MUST be treated as a connection error of type H3_FRAME_ERROR"
+            Ev::RequestTruncated(..) | Ev::SessionTruncated(..) => Close(vec![reg::H3_FRAME_ERROR]),
             Ev::RequestDataFirst | Ev::RequestSettingsFirst => Close(vec![reg::H3_FRAME_UNEXPECTED]),
             Ev::RequestGet => {
                 if wt_is_server {
@@ -168,6 +177,10 @@ fn ev_strategy() -> impl Strategy<Value = Ev> {
         Just(Ev::ControlOversize),
         Just(Ev::ControlGrease),
         Just(Ev::ControlTruncatedThenFin),
+        (any::<u8>(), any::<u8>()).prop_map(|(a, b)| Ev::ControlTruncated(a, b)),
+        (any::<u8>(), any::<u8>()).prop_map(|(a, b)| Ev::RequestTruncated(a, b)),
+        (any::<u8>(), any::<u8>()).prop_map(|(a, b)| Ev::RequestTruncated(a, b)),
+        (any::<u8>(), any::<u8>()).prop_map(|(a, b)| Ev::SessionTruncated(a, b)),
         Just(Ev::RequestDataFirst),
         Just(Ev::RequestSettingsFirst),
         Just(Ev::RequestGet),
@@ -187,6 +200,55 @@ fn ev_strategy() -> impl Strategy<Value = Ev> {
 pub fn case_strategy() -> impl Strategy<Value = Case> {
     let pre = prop_oneof![8 => Just(Pre::Valid), 1 => Just(Pre::DataFirst), 1 => Just(Pre::HeadersFirst), 1 => Just(Pre::GreaseFirst), 1 => (0u8..5).prop_map(Pre::ReservedSetting), 1 => Just(Pre::DuplicateSetting)];
     (0u8..3, any::<bool>(), pre, proptest::collection::vec(ev_strategy(), 1..6)).prop_map(|(flavor, wt_is_server, pre, events)| Case { flavor, wt_is_server, pre, events })
+}
+
+/// A frame cut short: type by `sel` (DATA, HEADERS, SETTINGS, 1- and 2-byte GREASE, three unknown
+/// types of 1, 2 and 8 bytes, WT signal), cut point by `cut` (inside the type, inside the length /
+/// session id, right after the length, inside the payload).
+pub fn truncated_frame(sel: u8, cut: u8) -> Vec<u8> {
+    let ty = match sel % 9 {
+        0 => reg::FRAME_DATA,
+        1 => reg::FRAME_HEADERS,
+        2 => reg::FRAME_SETTINGS,
+        3 => refcodec::grease(2),
+        4 => refcodec::grease(700),
+        5 => 0x0f,
+        6 => 0x1234,
+        7 => 0x1122_3344_5566,
+        _ => reg::FRAME_WT_STREAM,
+    };
+    let tyb = refcodec::enc_varint(ty);
+    let wt = ty == reg::FRAME_WT_STREAM;
+    let mut cut = cut % 4;
+    if cut == 0 && tyb.len() == 1 {
+        cut = 1;
+    }
+    if wt && cut >= 2 {
+        cut = 1;
+    }
+    match cut {
+        // inside the type varint
+        0 => tyb[..tyb.len() - 1].to_vec(),
+        // inside the length (2-byte encoding) / the session id
+        1 => {
+            let mut v = tyb;
+            v.push(0x41);
+            v
+        }
+        // right after the length: no payload byte at all
+        2 => {
+            let mut v = tyb;
+            v.push(5);
+            v
+        }
+        // inside the payload
+        _ => {
+            let mut v = tyb;
+            v.push(5);
+            v.extend_from_slice(&[0, 0]);
+            v
+        }
+    }
 }
 
 fn control_preamble_for(pre: Pre) -> Vec<u8> {
@@ -304,6 +366,23 @@ impl Peer {
                 b.extend_from_slice(b"abc");
                 let _ = self.control.write_all(&b).await;
                 let _ = self.control.finish();
+            }
+            Ev::ControlTruncated(sel, cut) => {
+                let _ = self.control.write_all(&truncated_frame(*sel, *cut)).await;
+                let _ = self.control.finish();
+            }
+            Ev::RequestTruncated(sel, cut) => {
+                if let Ok((mut s, r)) = self.conn.open_bi().await {
+                    let _ = s.write_all(&truncated_frame(*sel, *cut)).await;
+                    let _ = s.finish();
+                    self.held.push(Box::new((s, r)));
+                }
+            }
+            Ev::SessionTruncated(sel, cut) => {
+                if let Some(s) = self.req_send.as_mut() {
+                    let _ = s.write_all(&truncated_frame(*sel, *cut)).await;
+                    let _ = s.finish();
+                }
             }
             Ev::RequestDataFirst | Ev::RequestSettingsFirst | Ev::RequestGet | Ev::RequestNoProtocol => {
                 if let Ok((mut s, r)) = self.conn.open_bi().await {
@@ -510,7 +589,7 @@ async fn exec_async(case: Arc<Case>) -> CaseResult {
     let mut model = Model::default();
     let mut nontrivial = false;
     for (i, ev) in case.events.iter().enumerate() {
-        if peer.req_send.is_none() && matches!(ev, Ev::SessionSettings | Ev::SessionHeaders | Ev::SessionWtSignal | Ev::SessionGrease) {
+        if peer.req_send.is_none() && matches!(ev, Ev::SessionSettings | Ev::SessionHeaders | Ev::SessionWtSignal | Ev::SessionGrease | Ev::SessionTruncated(..)) {
             continue;
         }
         let react = model.react(ev, case.wt_is_server);
@@ -607,6 +686,20 @@ pub fn run(run: &Run) {
         Ev::BiGreaseThenWt, Ev::SessionSettings, Ev::SessionHeaders, Ev::SessionWtSignal, Ev::SessionGrease,
     ];
     let mut table: Vec<Case> = Vec::new();
+    // every (frame type, cut point) of a frame truncated by FIN, on each of the three stream roles
+    for wt_is_server in [true, false] {
+        for sel in 0..9u8 {
+            for cut in 0..4u8 {
+                let k = (sel + cut) % 3;
+                table.push(Case { flavor: k, wt_is_server, pre: Pre::Valid, events: vec![Ev::RequestTruncated(sel, cut)] });
+                if (sel + cut) % 2 == 0 {
+                    table.push(Case { flavor: k, wt_is_server, pre: Pre::Valid, events: vec![Ev::ControlTruncated(sel, cut)] });
+                } else {
+                    table.push(Case { flavor: k, wt_is_server, pre: Pre::Valid, events: vec![Ev::SessionTruncated(sel, cut)] });
+                }
+            }
+        }
+    }
     for wt_is_server in [true, false] {
         for (i, e) in singles.iter().enumerate() {
             table.push(Case { flavor: (i % 3) as u8, wt_is_server, pre: Pre::Valid, events: vec![e.clone()] });
@@ -634,7 +727,7 @@ pub fn run(run: &Run) {
             Outcome::Inconclusive(w) => run.inconclusive(&w),
         }
     }
-    run.section_exhaustive("event-table", true, "every single event (alone and after a QPACK encoder stream) and every control-stream opening variant, on both roles");
+    run.section_exhaustive("event-table", true, "every single event (alone and after a QPACK encoder stream), every (frame type, cut point) truncation on the three stream roles and every control-stream opening variant, on both roles");
     prop_search(
         run,
         Search { check: "histories-e2e", cases: run.tier.pick(800, 8000), workers: 8, max_shrink_iters: 80 },
